@@ -80,3 +80,18 @@ Definition add_int (n:nat) (v:Z) : list Z := le_bytes n (v mod 256^(Z.of_nat n))
 (* GetByte has no default argument: 0xff *)
 Definition get_int (n:nat) (s:bool) (def idx datalen:Z) (data:list Z) : Z * Z :=
   if fits n idx datalen then (get_code n s idx data, idx + Z.of_nat n) else (def, idx).
+
+(* ---------- the free functions and the caller-chosen "undefined" value ----------
+   SetBufNByte[U]Double(v, precision, index, buf) are public functions of N2kMsg.h; only the 8-byte one knows 'not available'
+   (N2kIsNA(v): v == N2kDoubleNA), the others scale whatever they are given.  AddNByte[U]Double(v, precision, UndefVal) writes the
+   reserved code when v == UndefVal (IEEE comparison: a NaN equals nothing, +0 equals -0) and calls SetBuf... otherwise. *)
+Definition set_buf_double (n:nat) (s:bool) (vbits pbits:Z) : list Z :=
+  let v := decode b64 vbits in
+  let code :=
+    if (n =? 8)%nat then (if vbits =? na_double_bits then nac 8 true else set_code8 (fdiv b64 v (decode b64 pbits)))
+    else set_code n s (own_round (fdiv b64 v (decode b64 pbits))) in
+  le_bytes n (code mod 256^(Z.of_nat n)).
+Definition ieee_eq (abits bbits:Z) : bool :=
+  negb (is_nan (decode b64 abits)) && negb (is_nan (decode b64 bbits)) && ((abits =? bbits) || ((abits mod 2^63 =? 0) && (bbits mod 2^63 =? 0))).
+Definition add_double_u (n:nat) (s:bool) (vbits pbits ubits:Z) : list Z :=
+  if ieee_eq vbits ubits then le_bytes n (nac n s mod 256^(Z.of_nat n)) else set_buf_double n s vbits pbits.
